@@ -583,10 +583,14 @@ def run(ck):
     ck.assume('recording stub in place of Crazyflie (is_connected, param.set_value, commander, high_level_commander); '
               'directions as documented: +x forward, +y left, +z up, positive yaw rate = left')
     ck.assume('the height used for landing (last streamed setpoint, up to one period stale) is not judged')
-    one = [c for c in cs if len(c['prog']) <= 1]
+    special = [c for c in cs if c['kind'] == 'mc2' or c.get('slow_link')]
+    one = [c for c in cs if len(c['prog']) <= 1 and c not in special]
     two = [c for c in cs if len(c['prog']) == 2]
     r = explore(ck, exec_c17, one, 2 if ck.quick else 3, max_execs=3000000, chunksize=16)
     ck.note('exploration_len_le_1', r)
+    # two commanders at once / a busy link: two deviations in both tiers (three would take hours for the two-commander runs)
+    rs = explore(ck, exec_c17, special, 2, max_execs=3000000, chunksize=16)
+    ck.note('exploration_two_commanders_and_busy_link', rs)
     r2 = explore(ck, exec_c17, two, 1 if ck.quick else 2, max_execs=3000000, chunksize=16)
     ck.note('exploration_len_2', r2)
     if not ck.quick:
